@@ -219,6 +219,9 @@ def n_children(holder, tname):
     return None
 
 
+VTOL = [TOL]  # value tolerance in force (single precision for documents that mix floating dtypes)
+
+
 def close(a, b):
     a = np.asarray(a, dtype=float)
     b = np.asarray(b, dtype=float)
@@ -226,7 +229,7 @@ def close(a, b):
         return False
     if a.size == 0:
         return True
-    return bool(np.all(np.abs(a - b) <= TOL * (1.0 + np.abs(b))))
+    return bool(np.all(np.abs(a - b) <= VTOL[0] * (1.0 + np.abs(b))))
 
 
 def compare_values(dic, ids, ref):
@@ -422,6 +425,9 @@ def decorations(spec):
         yield f"ignored_value@{n}", at(lambda o: o.__setitem__("aux", _junk(first))), True
         yield f"comment_plate@{n}", at(lambda o: o.__setitem__("_plate", _junk_plate(first, False))), True
         yield f"ignore_false@{n}", at(lambda o: o.__setitem__("ignore", False)), False
+        if si.short_type(walk(spec)[0][n][0]) == "Parameter":
+            # one parameter in single precision: a document that mixes floating dtypes (sharing is unchanged)
+            yield f"dtype32@{n}", at(lambda o: o.__setitem__("dtype", "torch.float32")), False
         tname = si.short_type(walk(spec)[0][n][0])
         for k, alias in enumerate(si.TYPE_NAMES[tname][1:]):
             yield f"type_alias{k + 1}@{n}", at(lambda o: o.__setitem__("type", alias)), False
@@ -669,7 +675,11 @@ def do_decor(spec, tally, pairs=False):
         if same and si.strip_comments(s) != spec:
             raise RuntimeError(f"decoration {tag} is not neutral under the oracle: {s}")
         try:
-            cat, viols, _ = check_spec(s, "decor")
+            VTOL[0] = 1e-5 if "dtype32@" in tag else TOL
+            try:
+                cat, viols, _ = check_spec(s, "decor")
+            finally:
+                VTOL[0] = TOL
         except si.OutOfGrammar:
             tally.count("decor_skipped")
             continue
@@ -841,7 +851,11 @@ def replay(case):
         tally = Tally()
         fac.do_factory(case["item"], tally)
         return [c for _, (_, cases) in tally.viol.items() for c in cases]
-    cat, viols, _ = check_spec(case["spec"], part)
+    VTOL[0] = 1e-5 if "dtype32@" in case.get("tag", "") else TOL
+    try:
+        cat, viols, _ = check_spec(case["spec"], part)
+    finally:
+        VTOL[0] = TOL
     out = []
     deco = deco_name(case.get("tag", "")) if part == "decor" else case.get("tag", "").split("@")[0]
     for check, detail, extra in viols:
